@@ -17,6 +17,8 @@ PROPS = [f"C{i:02d}" for i in range(1, 20)]
 
 
 CASE_TIMEOUT_S = int(os.environ.get("VF_CASE_TIMEOUT_S", "90"))
+HANG_TIMEOUT_S = int(os.environ.get("VF_HANG_TIMEOUT_S", "240"))
+CURRENT_CTX = None
 
 
 class CaseTimeout(BaseException):
@@ -61,6 +63,7 @@ class Ctx:
         self.budget_s = budget_s
         self.case_no = 0
         self.shrinking = False  # set by run_hypothesis when the shrink phase is on
+        self.case_t0 = None  # start of the case being executed (watchdog, see vf/shard.py)
         self.replaying = False  # replay of a recorded case: known findings are not tolerated, the case is re-judged as is
 
     # -- accounting -------------------------------------------------------------------------
@@ -150,6 +153,7 @@ def run_hypothesis(ctx, strategy, fn, max_examples, shrink=None):
         if not ctx.shrinking and not ctx.collect and len(ctx.violations) >= 3:
             return  # enough distinct buckets recorded in this shard; do not burn the budget
         ctx.case_no += 1
+        ctx.case_t0 = time.time()
         signal.alarm(CASE_TIMEOUT_S)
         try:
             fn(ctx, case)
@@ -159,6 +163,7 @@ def run_hypothesis(ctx, strategy, fn, max_examples, shrink=None):
             ctx.inconclusive += 1
         finally:
             signal.alarm(0)
+            ctx.case_t0 = None
 
     try:
         test()
@@ -185,6 +190,8 @@ def _worker(args):
 
         mod = load_prop(prop)
         ctx = Ctx(prop, tier, seed, shard, nshards, collect, budget_s)
+        global CURRENT_CTX
+        CURRENT_CTX = ctx
         mod.run_shard(ctx)
         return ("ok", ctx.summary())
     except Exception as exc:  # harness failure, never a violation
